@@ -27,6 +27,24 @@ package expr
 //@   ensures[C17:no-error-means-a-map] err == nil && str_trim(data) != "" ==> ret != nil
 //@   ensures[C17:blank-input] str_trim(data) == "" ==> ret == nil && err == nil
 
+// ---- C17: the value of a STRING token --------------------------------------------------------------------------
+// Decoding s[i:n] onto an output array from position k on: a backslash with a following character inside
+// the quotes stands for the character the grammar assigns to it, every other character for itself.
+//@ spec fun escVal(c int) int = c == 'b' ? 8 : (c == 'f' ? 12 : (c == 'n' ? 10 : (c == 'r' ? 13 : (c == 't' ? 9 : c))))
+//@ spec rec fun decArr(s string, i int, n int, a smt:(Array Int Int), k int) smt:(Array Int Int) = i >= n ? a : (s[i] == 92 && i + 1 < n ? decArr(s, i + 2, n, upd(a, k, escVal(s[i+1])), k + 1) : decArr(s, i + 1, n, upd(a, k, s[i]), k + 1))
+//@ spec rec fun decLen(s string, i int, n int, k int) int = i >= n ? k : (s[i] == 92 && i + 1 < n ? decLen(s, i + 2, n, k + 1) : decLen(s, i + 1, n, k + 1))
+//@ spec fun isTokenValue(s string, v string) bool = len(s) >= 2 ==> len(v) == decLen(s, 1, len(s) - 1, 0) && (forall j int :: 0 <= j && j < len(v) ==> v[j] == decArr(s, 1, len(s) - 1, zero_arr, 0)[j])
+
+//@ func expr.unquote
+//@   modifies nothing
+//@   nopanic[C17]
+//@   ensures[C17:short-text-kept] len(s) < 2 ==> result == s
+//@   ensures[C17:token-value] isTokenValue(s, result)
+//@   loop 1 writes_own_objects
+//@   loop 1 invariant[C17:range] 1 <= i && i <= n && n == len(s) - 1 && 0 <= len(buf) && len(buf) <= i - 1 && cap(buf) == n && soff(buf) == 0 && fresh(sref(buf))
+//@   loop 1 invariant[C17:decoded-so-far] decArr(s, i, n, backing(buf), len(buf)) == decArr(s, 1, n, zero_arr, 0) && decLen(s, i, n, len(buf)) == decLen(s, 1, n, 0)
+//@   loop 1 decreases n - i
+
 // ---- C17: the tree listener writes only below the enclosing path -----------------------------------------------
 //@ spec fun under(key string, k string) bool = key == "" || has_prefix(k, key + ".")
 //@ spec fun fieldKeyOf(key string, ctx IInnerExprContext) string = key == "" ? IFieldAccessContext.GetText(IInnerExprContext.FieldAccess(ctx)) : key + "." + IFieldAccessContext.GetText(IInnerExprContext.FieldAccess(ctx))
@@ -37,7 +55,7 @@ package expr
 //@   requires l != nil && l.Result != nil
 //@   modifies map(l.Result)
 //@   ensures[C17:writes-stay-below-the-enclosing-path] forall k string :: !under(key, k) ==> has(l.Result, k) == old(has(l.Result, k)) && l.Result[k] == old(l.Result[k])
-//@   ensures[C17:string-value-unquoted] strTok(ctx) != nil ==> has(l.Result, fieldKeyOf(key, ctx)) && l.Result[fieldKeyOf(key, ctx)] == go_unquote(antlr.TerminalNode.GetText(strTok(ctx)))
+//@   ensures[C17:string-value-unquoted] strTok(ctx) != nil ==> has(l.Result, fieldKeyOf(key, ctx)) && isTokenValue(antlr.TerminalNode.GetText(strTok(ctx)), l.Result[fieldKeyOf(key, ctx)])
 
 //@ func (*expr.ParseTreeListener).parseExpr
 //@   may_panic
